@@ -6,6 +6,20 @@ var _ = gosym.Options{}
 
 var props = []PropSpec{
 	{
+		ID: "C08", Level: "other",
+		Explanation: "bounded symbolic execution of the position producers and of both renderers: lexer token/error spans from an unconstrained start location over a window of unconstrained runes; both Display functions on spans whose six fields are solver variables constrained only by validity; every syntax error and diagnostic of edited seed programs checked against the text and rendered; runtime interrupt / caught-exception positions checked against the failing construct on both back ends",
+		Harnesses: []HarnessSpec{
+			{Pkg: "homescript/lexer", Func: "VerifHarness_LexStep", Quick: map[string]int{"K": 3}, Thor: map[string]int{"K": 5}, Require: []string{"returned"},
+				What: "lexer: token spans are the exact inclusive range of the lexeme and name the file; error spans are ordered, inside the text and name the file (any start location, any window of <=K runes)"},
+			{Pkg: "homescript", Func: "VerifHarness_RenderSpans", Quick: map[string]int{"L": 3}, Thor: map[string]int{"L": 4}, Require: []string{"rendered"},
+				What: "errors.Error.Display and diagnostic.Diagnostic.Display succeed on every valid span (all six fields symbolic, validity B.6 assumed, or the whole-file position) of texts of 1..L lines of length 0..3"},
+			{Pkg: "homescript", Func: "VerifHarness_ReportedSpans", Quick: map[string]int{}, Require: []string{"analysed"},
+				What: "8 seed programs x every token position x {replace, insert after, truncate} x 18 lexemes (incl. illegal character, newline, unterminated string/comment) x {one line, one token per line}: every syntax error and diagnostic position is valid for the text and renders"},
+			{Pkg: "homescript", Func: "VerifHarness_RuntimeSpans", Quick: map[string]int{}, Require: []string{"ran"},
+				What: "uncaught throw, caught throw (e.line/e.column), index-out-of-range and division-by-zero fatals behind 0..2 blank lines, both back ends: the reported position is valid and lies on the failing construct's line"},
+		},
+	},
+	{
 		ID: "C20", Level: "translation_validation",
 		Explanation: "the fuzzer's Transformer is executed symbolically with math/rand replaced by fork variables (every draw may take any value; bounded number of non-default draws per path), the variant is printed and re-analysed (the project's own path) and original and variant run on the VM in the same path with unconstrained host inputs; outputs are compared as SMT terms (bit-vector / floating-point identities decided by the solver)",
 		Harnesses: []HarnessSpec{
